@@ -68,6 +68,13 @@ Definition trace_index_assign (idx rhs : hexpr) : list nat :=
   let '(pi, ii) := tr idx in
   pr ++ pi ++ ii ++ ir.
 
+(* `defer f(args)` / `go f(args)` (delegatedCall): the arguments go through translateArgs at the statement, the call
+   itself happens elsewhere *)
+Definition trace_delegated (args : list hexpr) : list nat :=
+  let '(p, i) := tr_args (map tr args) (existsb marked (tl args)) in p ++ i.
+
+Definition go_delegated (args : list hexpr) : list nat := concat (map go_order args).
+
 Definition go_index_assign (idx rhs : hexpr) : list nat := go_order idx ++ go_order rhs.
 
 (* the input class on which expression order is preserved: no binary operation whose left operand leaves a
